@@ -139,7 +139,7 @@ String& String::replace(const String& needle, const String& replacement)
 {
   if(needle.isEmpty())
     return *this;
-  const char* p = data->str;
+  const char* p = *this;
   const char* match = strstr(p, needle);
   if(!match)
     return *this;
